@@ -11,6 +11,7 @@
            [c = "WRD", t, d, m]   write data / mask bytes seen on the bus in cycle t (d = bytes, m = 0/1 per byte, 1 = masked)
            [c = "RDD", t, v, d]   a cycle with some rddata_valid: v = valid bit per phase, d = bytes
            [c = "DUMP", b, i, d]  final contents of word i of bank b (i = row * wordsPerRow + word in row)
+           [c = "DUMP0", b, i, d] contents of that word before any traffic (placed at the start of the trace)
            [c = "DUMPN", n]       number of words of the whole memory that differ from the init image
            [c = "END", t]
    State s: open (bank -> row or -1), mem (sparse: <<b,row,w>> -> bytes, absent = init image), pw (queue of pending writes),
@@ -117,9 +118,11 @@ DStep(cfg, s0, e) ==
               R([s EXCEPT !.pr = Tail(@)],
                 (IF allv THEN {} ELSE {<<"rddata_valid not on every phase", e.t, e.v>>})
                 \cup (IF e.d = h.d THEN {} ELSE {<<"read data differs from the reference model", e.t, h.loc, e.d, h.d>>}), {})
-    [] e.c = "DUMP" ->
+    [] e.c \in {"DUMP", "DUMP0"} ->       \* DUMP0 = contents before any traffic (the init image as distributed to the banks)
          LET w == e.i % Wpr(cfg)  row == e.i \div Wpr(cfg)  want == MemGet(cfg, s, <<e.b, row, w>>) IN
-         R(s, (IF e.d = want THEN {} ELSE {<<"final memory word differs from the reference model", <<e.b, row, w>>, e.d, want>>})
+         R(s, (IF e.d = want THEN {}
+               ELSE {<<IF e.c = "DUMP0" THEN "initial memory word differs from the init image laid out per address mapping"
+                                        ELSE "final memory word differs from the reference model", <<e.b, row, w>>, e.d, want>>})
               \cup (IF MapAgrees(cfg, e.b, row, w) THEN {} ELSE {<<"SPEC: LinIndex disagrees with R_AddrMap", e.b, row, w>>}), {})
     [] e.c = "DUMPN" ->
          LET changed == {loc \in DOMAIN s.mem : s.mem[loc] # InitWord(cfg, loc[1], loc[2], loc[3])} IN
